@@ -257,7 +257,21 @@ class Gen:
                     sc = [(al, tb) for al, tb in scope if any(ty == 'TEXT' for _, ty in LAYOUT[tb])]
                     targets.append(f'{self.txt_expr(sc)} AS c{i}')
                 else:
-                    targets.append(f'CASE WHEN {self.bool_expr(scope, 1)} THEN 1 ELSE 0 END AS c{i}')
+                    # CASE of every build: one or several branches, results that repeat (also the ELSE value in an early branch),
+                    # the simple form with an operand, no ELSE at all
+                    kc = r.random()
+                    if kc < 0.4:
+                        targets.append(f'CASE WHEN {self.bool_expr(scope, 1)} THEN 1 ELSE 0 END AS c{i}')
+                    elif kc < 0.75:
+                        res = [r.choice([0, 1, 2]) for _ in range(r.choice([2, 3]))]
+                        els = r.choice(res + [9])
+                        branches = ' '.join(f'WHEN {self.bool_expr(scope, 1)} THEN {x}' for x in res)
+                        targets.append(f'CASE {branches}' + (f' ELSE {els}' if r.random() < 0.8 else '') + f' END AS c{i}')
+                    else:
+                        al, tb = r.choice(scope)
+                        res = [r.choice([10, 20]) for _ in range(2)]
+                        targets.append(f'CASE {self.num_col(al, tb)} WHEN 1 THEN {res[0]} WHEN 2 THEN {res[1]} ELSE {r.choice(res + [30])} END AS c{i}')
+                    self.features.add('case')
             # the unique ids make results comparable row by row
             targets += [f'{al}.id AS id_{al}' for al, _ in scope]
         s = 'SELECT ' + ('DISTINCT ' if distinct else '') + ', '.join(targets) + ' FROM ' + frm
